@@ -12,8 +12,8 @@ CHECKS = {
    note="The model encodes copy-on-bind value semantics as the documented behaviour; elements are integers or nested containers, map keys strings.",
    tech="deterministic simulation: seeded operation histories + injected cancellation, checked after every step against a small executable value-semantics model"),
  "C09": dict(cat="exploration", ref="5.5, 10",
-   text="(a) for 22 programs (non-terminating loops of every for form, unbounded/mutual recursion, closures, heavy operators, sleep) the virtual deadline is swept over EVERY tick 1..min(T,cap): EvalOne must return, polls after firing stay within N*(D+2), the outcome is an error/recovered panic, virtual sleep honours the deadline, a probe input works afterwards. (b) MaxDepth 10..3000 with direct/mutual/closure/eval()/nested-source recursion must end in the max-depth guard or a value, and a recursion calibrated to MaxDepth-eps must succeed right after. (c) child processes under RLIMIT_AS=4GiB and GOMEMLIMIT=64MiB evaluate repetition/range/concat/doubling/macro-recursion programs with operands across 2^31/2^63 and in the free/16..free band; they must exit normally with a result within the budget or the memory/depth guard. (d) evaluators that used to run without a context (unjson, eval, macro bodies and arguments) and run()/exec() followed by an endless loop (unrestricted IO) under a virtual deadline. (e) the REAL timer of SetContext: MaxDuration 150 ms under a host context without, with a later and with an earlier deadline must come back within 12 s. Every sub-scenario runs in a watchdog child, so an evaluation that never polls the context again, a fatal stack overflow or an OOM kill is reported as a violation instead of hanging or killing the harness.",
-   note="No real clock decides a verdict except the watchdogs (180 s / 45 s of real time for evaluations that take milliseconds when correct). Wall-clock latency of cancellation and peak RSS are not judged. Real time decides only the realtimer verdict, with a margin of x80. Three recorded findings: fat-frame recursion overflows the Go stack at the default depth limit; a large container assigned into itself is cyclic and printing it kills the process; comparing a value with 2^40 shared sub-arrays never polls the context.",
+   text="(a) for 22 programs (non-terminating loops of every for form, unbounded/mutual recursion, closures, heavy operators, sleep) the virtual deadline is swept over EVERY tick 1..min(T,cap): EvalOne must return, polls after firing stay within N*(D+2), the outcome is an error/recovered panic, virtual sleep honours the deadline, a probe input works afterwards. (b) MaxDepth 10..3000 with direct/mutual/closure/eval()/nested-source recursion must end in the max-depth guard or a value, and a recursion calibrated to MaxDepth-eps must succeed right after. (c) child processes under RLIMIT_AS=4GiB and GOMEMLIMIT=64MiB evaluate repetition/range/concat/doubling/macro-recursion programs with operands across 2^31/2^63 and in the free/16..free band; they must exit normally with a result within the budget or the memory/depth guard. (d) evaluators that used to run without a context (unjson, eval, macro bodies and arguments) and run()/exec() followed by an endless loop (unrestricted IO) under a virtual deadline. (e) the REAL timer of SetContext: MaxDuration 150 ms under a host context without, with a later and with an earlier deadline must come back within 8 s. Every sub-scenario runs in a watchdog child, so an evaluation that never polls the context again, a fatal stack overflow or an OOM kill is reported as a violation instead of hanging or killing the harness.",
+   note="No real clock decides a verdict except the watchdogs (180 s / 45 s of real time for evaluations that take milliseconds when correct). Wall-clock latency of cancellation and peak RSS are not judged. Real time decides only the realtimer verdict, with a margin of x50. Three recorded findings: fat-frame recursion overflows the Go stack at the default depth limit; a large container assigned into itself is cyclic and printing it kills the process; comparing a value with 2^40 shared sub-arrays never polls the context.",
    tech="deterministic simulation: virtual-clock deadline swept over every cancellation instant, depth guard under random limits, memory guard via injected budget; all inside address-space-limited watchdog child processes"),
  "C10": dict(cat="exploration", ref="5.6",
    text="Seeded search over session histories: each base history of succeeding inputs is executed on the real interpreter with and without side-effect-free failing inputs (language error, Go runtime panic in a function or in a callee of a top-level loop, depth overflow, deadline at a PRNG-chosen virtual tick, injected allocation refusal, writer error, register-only loop errors, break/continue outside loops, a panic inside eval() reached through a function, a panic on the right of a pipe) inserted at random positions with multiplicity 1..11 (slot and depth leaks only show after several failures); every later input must produce identical output/value/outcome (and identical tick count with the cache off), and final globals must agree; a cancelled input's text is sometimes re-submitted uncancelled later in both histories (stale memoized partial results). Sampling, not proof.",
